@@ -27,7 +27,7 @@ static int sample_left = 6;
 
 /* statistics */
 static uint64_t st_read, st_write, st_connect, st_accept, st_cancel,
-    st_eof, st_err, st_bytes, st_stall, st_lists, st_timeouts, st_rw_both, st_zero_timeo;
+    st_eof, st_err, st_bytes, st_stall, st_lists, st_timeouts, st_rw_both, st_zero_timeo, st_dup;
 
 static void
 viol(const char * key, const char * fmt, ...)
@@ -223,6 +223,24 @@ one_read(int fd)
 		free(buf);
 		return (0);
 	}
+	/*
+	 * Sometimes a second read request for the same descriptor while the
+	 * first is outstanding: it must be refused, and the first must be
+	 * none the worse for it.
+	 */
+	if (vh_chance(&R, 1, 8)) {
+		uint8_t b2[16];
+		struct req q2 = { 0, 0, 0 };
+		int dummy = 0;
+
+		st_dup++;
+		if (network_read(fd, b2, sizeof(b2), 1, rw_cb, &q2) != NULL)
+			viol("read:duplicate-accepted", "a second read request on a descriptor with one "
+			    "outstanding was accepted");
+		run_until(&dummy, 1 + vh_below(&R, 200));
+		if (q2.ncb)
+			viol("read:refused-request-called-back", "a refused request ran its callback");
+	}
 	if (cancel) {
 		/* Let it make some progress first, sometimes. */
 		int steps = (int)vh_below(&R, 4), s;
@@ -348,6 +366,21 @@ one_write(int fd)
 		viol("write:register-failed", "network_write returned NULL");
 		free(buf);
 		return (0);
+	}
+	/* a second write request while the first is outstanding must be refused */
+	if (vh_chance(&R, 1, 8)) {
+		static uint8_t b2[16];
+		struct req q2 = { 0, 0, 0 };
+		uint64_t sent0 = f->out_total;
+		int dummy = 0;
+
+		st_dup++;
+		if (network_write(fd, b2, sizeof(b2), 1, rw_cb, &q2) != NULL)
+			viol("write:duplicate-accepted", "a second write request on a descriptor with one "
+			    "outstanding was accepted");
+		if (q2.ncb || f->out_total != sent0)
+			viol("write:refused-request-acted", "a refused request sent data or called back");
+		(void)dummy;
 	}
 	if (cancel) {
 		int steps = (int)vh_below(&R, 4), s, dummy = 0;
@@ -972,7 +1005,8 @@ main(int argc, char ** argv)
 	printf("STAT polls %llu\nSTAT recv_calls %llu\nSTAT send_calls %llu\nSTAT connect_calls %llu\nSTAT accept_calls %llu\n",
 	    (unsigned long long)simk_npoll, (unsigned long long)simk_nrecv, (unsigned long long)simk_nsend,
 	    (unsigned long long)simk_nconnect, (unsigned long long)simk_naccept);
-	printf("STAT cases_with_descriptor_0_free %llu\nSTAT connect_lists_with_zero_timeout %llu\n",
-	    (unsigned long long)st_fd0_free, (unsigned long long)st_zero_timeo);
+	printf("STAT cases_with_descriptor_0_free %llu\nSTAT connect_lists_with_zero_timeout %llu\n"
+	    "STAT duplicate_requests_refused %llu\n",
+	    (unsigned long long)st_fd0_free, (unsigned long long)st_zero_timeo, (unsigned long long)st_dup);
 	return (0);
 }
